@@ -332,9 +332,9 @@ def kernel_set(ctx, i, tmpl, nxt, avail, pstate, copat, names, ns):
                       ctrlof=ctrlof, ctrlset=(copat == "empty"))
 
 
-def kernel_cases(maxlen, tmpl_orders, limit_mode="cycle", minlen=1):
-    ctx = dl.Ctx(dl.ALPHABET)
-    ns = 1
+def kernel_cases(maxlen, tmpl_orders, limit_mode="cycle", minlen=1, cluster=False, newest_succ=False):
+    ctx = dl.Ctx(dl.ALPHABET, cluster=cluster)
+    ns = 0 if cluster else 1
     out, idx = [], 0
     for k in range(minlen, maxlen + 1):
         prev_space = list(itertools.product([False, True], PSTATES, COPATS))
@@ -349,6 +349,9 @@ def kernel_cases(maxlen, tmpl_orders, limit_mode="cycle", minlen=1):
                 for avail_new in (False, True):
                     sets = [kernel_set(ctx, i, tm[i], tm[i + 1], combo[i][0], combo[i][1], combo[i][2], names, ns) for i in range(k - 1)]
                     sets.append(kernel_set(ctx, k - 1, tm[-1], None, avail_new, "active", "own", names, ns))
+                    if newest_succ:
+                        # the sticky Succeeded of a revision that was Available once says nothing about now
+                        sets[-1]["conds"].append(SUCC(2))
                     cc_dep = None
                     # the deployment's collision count is the one the newest name was made with
                     for (t, c), h in ctx.hashes.items():
@@ -366,8 +369,14 @@ def kernel(seed, tier):
     if tier == "quick":
         return kernel_cases(3, [(1, 2, 3)]) + kernel_cases(2, [(1, 5), (2, 6), (5, 1)]) + kernel_cases(2, [(1, 7), (7, 1)], "one", minlen=2) + \
             [p for i, p in enumerate(kernel_cases(3, [(1, 5, 6)])) if len(p[1]["sets"]) == 3 and i % 8 == 0] + \
-            [p for i, p in enumerate(kernel_cases(3, [(1, 7, 3), (1, 2, 7)], minlen=3)) if i % 16 == 0]
-    return kernel_cases(3, [(1, 2, 3)], "all") + kernel_cases(3, [(1, 5, 6), (2, 1, 2), (3, 2, 1), (2, 6, 5), (1, 7, 3), (1, 2, 7)]) + kernel4()
+            [p for i, p in enumerate(kernel_cases(3, [(1, 7, 3), (1, 2, 7)], minlen=3)) if i % 16 == 0] + succ_cases()
+    return kernel_cases(3, [(1, 2, 3)], "all") + kernel_cases(3, [(1, 5, 6), (2, 1, 2), (3, 2, 1), (2, 6, 5), (1, 7, 3), (1, 2, 7)]) + kernel4() + succ_cases()
+
+
+def succ_cases():
+    """chains of 2 whose newest revision carries Succeeded=True next to its Available condition, both flavours"""
+    return kernel_cases(2, [(1, 2)], "one", minlen=2, cluster=False, newest_succ=True) + \
+        kernel_cases(2, [(1, 2)], "one", minlen=2, cluster=True, newest_succ=True)
 
 
 def kernel4():
